@@ -24,8 +24,12 @@ import (
 // addresses; all pointees are equal, so only pointer identity tells owners apart.
 type ownerT struct{ pad int64 }
 
-// owner index 0 is "nil" (only meaningful in Filter), 1..3 = A, B, C are used by
-// Log and Filter, 4 = D is used only by Filter (never logged).
+// owner index 0 is nil: as the REQUESTED owner of a Filter it matches every
+// entry; an entry LOGGED with a nil owner is an ordinary entry whose owner is
+// equal to nil only, so it matches only requests with a nil owner. 1..3 = A, B,
+// C are used by Log and Filter, 4 = D is used only by Filter (never logged).
+// Types likewise: a requested type 0 matches everything, an entry logged with
+// type 0 matches only requests with type 0.
 var ownerTab = [5]*ownerT{nil, new(ownerT), new(ownerT), new(ownerT), new(ownerT)}
 
 const ownerNames = "-ABCD"
@@ -62,6 +66,20 @@ func ownerIndex(v interface{}) int {
 }
 
 var logTypes = []int{1, 2, 4, 8}
+
+// logTypes0: the types of Log calls including 0 (an entry without a type).
+var logTypes0 = []int{0, 1, 2, 4, 8}
+
+// nCombos: the (owner, type) combinations of Log calls, owners {nil,A,B,C} x
+// types {0,1,2,4,8}; combo(x) for x in 0..19. The 12 combinations with an
+// owner and a type are comboOrd(x), x in 0..11.
+const nCombos = 20
+
+func combo(x int) ent    { return ent{x / 5, logTypes0[x%5]} }
+func comboOrd(x int) ent { return ent{1 + x/4, logTypes[x%4]} }
+
+// wild: the entry was logged with a nil owner or with type 0.
+func (e ent) wild() bool { return e.o == 0 || e.t == 0 }
 
 // fatOwner is an owner that is a VALUE, legal (comparable) but expensive to
 // compare: two equal values in different interface boxes are compared word by
@@ -110,6 +128,11 @@ func (f FP) String() string { return fmt.Sprintf("Filter(%c,%d)", ownerNames[f.O
 
 func (f FP) restrictive() bool { return f.O != 0 || f.T != 0 }
 
+// matches is the statement's rule for an entry logged with owner o and type t:
+// a nil REQUESTED owner / a zero REQUESTED type match everything, otherwise
+// the logged value must be equal to the requested one. So an entry logged with
+// a nil owner (o == 0) or with type 0 is matched only by requests that are
+// wild in that component — nil and 0 are wildcards on the request side only.
 func (f FP) matches(o, t int) bool {
 	return (f.O == 0 || f.O == o) && (f.T == 0 || f.T == t)
 }
@@ -124,9 +147,9 @@ type Flt struct {
 	Settle bool `json:"settle,omitempty"`
 }
 
-// Prod is one concurrent producer: Count entries, all with owner O; entry i has
-// type Types[i % len(Types)]; the producer yields after every Yield entries
-// (0 = never).
+// Prod is one concurrent producer: Count entries, all with owner O (0: logged
+// with a nil owner); entry i has type Types[i % len(Types)] (a type may be 0);
+// the producer yields after every Yield entries (0 = never).
 type Prod struct {
 	O     int   `json:"o"`
 	Count int   `json:"count"`
@@ -184,8 +207,9 @@ type Filterer struct {
 type Case struct {
 	Kind string `json:"kind"`
 	N    int    `json:"n"`
-	// Logs: two characters per Log call, owner letter A..C and type digit 1/2/4/8,
-	// e.g. "A1B2C8". The data of the k-th call is the integer k.
+	// Logs: two characters per Log call, owner letter A..C or '-' (logged with a
+	// nil owner) and type digit 1/2/4/8 or 0 (logged with type 0), e.g.
+	// "A1B2-8C0". The data of the k-th call is the integer k.
 	Logs    string     `json:"logs,omitempty"`
 	Filters []Flt      `json:"filters,omitempty"`
 	Prods   []Prod     `json:"prods,omitempty"`
@@ -231,7 +255,7 @@ func parseLogs(s string) ([]ent, error) {
 	for i := range es {
 		o := strings.IndexByte(ownerNames, s[2*i])
 		t := int(s[2*i+1] - '0')
-		if o < 1 || o > 3 || t < 1 || t > 9 {
+		if o < 0 || o > 3 || t < 0 || t > 9 {
 			return nil, fmt.Errorf("harness: bad log token %q", s[2*i:2*i+2])
 		}
 		es[i] = ent{o, t}
@@ -240,7 +264,9 @@ func parseLogs(s string) ([]ent, error) {
 }
 
 // allFilters: every (owner, type) combination over owners {nil,A,B,C,D} and
-// types {0,1,2,4,8,3}; 3 is never logged (the match is by equality).
+// types {0,1,2,4,8,3}; 3 is never logged (the match is by equality). Entries
+// logged with a nil owner must show up under the owners nil only, entries
+// logged with type 0 under the type 0 only.
 var allFilters = func() []FP {
 	var fs []FP
 	for o := 0; o <= 4; o++ {
@@ -728,7 +754,7 @@ func validateConc(c *Case) error {
 		return fmt.Errorf("harness: bad concurrent configuration")
 	}
 	for _, p := range c.Prods {
-		if p.O < 1 || p.O > 3 || p.Count < 0 || p.Count >= 1<<prodShift || len(p.Types) == 0 || p.Yield < 0 {
+		if p.O < 0 || p.O > 3 || p.Count < 0 || p.Count >= 1<<prodShift || len(p.Types) == 0 || p.Yield < 0 {
 			return fmt.Errorf("harness: bad producer %+v", p)
 		}
 	}
